@@ -588,12 +588,21 @@ impl Writer {
                 // KeyDir is updated: at startup only the hint file of a merge file is read, so an
                 // entry must never point at a copy that the hint file does not list (if this append
                 // fails the entry keeps pointing at the file it was copied from, which then stays).
-                merge_hintfile_writer.append(&HintFileEntry {
+                if let Err(e) = merge_hintfile_writer.append(&HintFileEntry {
                     tstamp: keydir_entry.tstamp,
                     len: nbytes,
                     pos: merge_pos,
                     key: keydir_entry.key().clone(),
-                })?;
+                }) {
+                    // Nothing points at the copy just made. Count it as dead, so that a later
+                    // pass reclaims this file instead of leaving it behind for good.
+                    self.ctx
+                        .stats
+                        .entry(*merge_fileid)
+                        .or_default()
+                        .add_dead(nbytes);
+                    return Err(e.into());
+                }
 
                 // update keydir so it points to the merge data file
                 keydir_entry.fileid = *merge_fileid;
